@@ -3,7 +3,7 @@ SPECIFICATION GenSpec
 CONSTANTS
   NB = 2
   MaxRogue = 2
-  RogueKinds = {"wrongId", "otherId", "close"}
+  RogueKinds = {"wrongId", "otherId", "badGreeting", "close"}
   MaxMsgs = 0
   Mode = "standard"
   MaxEnv = 4
